@@ -13,7 +13,7 @@ func init() {
 	registry["C06"] = func() []*seqmc.Spec {
 		cap := 4
 		if thorough {
-			cap = 6
+			cap = 9
 		}
 		return []*seqmc.Spec{
 			{Property: "C06", Component: "Stack", Inits: []string{"empty"}, New: func(string) seqmc.Sys {
